@@ -225,6 +225,88 @@ def make_bounds():
     return Harness(run, base, name="bounds")
 
 
+# ---------------------------------------------------------------------------------- real NumPy statistics
+
+NUMPY_STATS = ("mean", "var", "std", "median", "max", "min", "sum")
+
+
+def _ref_stat_flag(name, xs, lo, hi):
+    """z3 formula 'the statistic <name> of the reals xs is < lo or > hi', written from the textbook definition
+    (population variance / standard deviation, i.e. NumPy's default ddof=0), independently of NumPy."""
+    m = len(xs)
+    tot = xs[0]
+    for x in xs[1:]:
+        tot = tot + x
+    mean = tot / m
+    if name in ("mean", "sum"):
+        st = mean if name == "mean" else tot
+        return z3.Or(st < lo, st > hi)
+    if name in ("var", "std"):
+        var = sum(((x - mean) * (x - mean) for x in xs[1:]), (xs[0] - mean) * (xs[0] - mean)) / m
+        if name == "var":
+            return z3.Or(var < lo, var > hi)
+        # std = sqrt(var) >= 0:  std < lo <=> lo > 0 and var < lo^2;  std > hi <=> hi < 0 or var > hi^2
+        return z3.Or(z3.And(lo > 0, var < lo * lo), hi < 0, var > hi * hi)
+    mx, mn = xs[0], xs[0]
+    for x in xs[1:]:
+        mx = z3.If(x > mx, x, mx)
+        mn = z3.If(x < mn, x, mn)
+    if name == "max":
+        return z3.Or(mx < lo, mx > hi)
+    if name == "min":
+        return z3.Or(mn < lo, mn > hi)
+    # median, m <= 4: middle element, or mean of the two middle elements
+    if m == 1:
+        med = xs[0]
+    elif m == 2:
+        med = mean
+    elif m == 3:
+        med = tot - mx - mn
+    elif m == 4:
+        med = (tot - mx - mn) / 2
+    else:
+        raise ValueError("median reference written for segments of at most 4 rows")
+    return z3.Or(med < lo, med > hi)
+
+
+def make_numpy(n, stat):
+    """The statistic is a *real NumPy reduction* applied to symbolic data: the anomaliser must flag exactly the segments
+    whose statistic, by its textbook definition, lies outside [lower, upper] (seed C17-d: a reduction that is silently
+    replaced by a similarly named one with another definition)."""
+    lo, hi = z3.Real("lo"), z3.Real("hi")
+    xs = [z3.Real(f"x_{i}") for i in range(n)]
+    base = [lo <= hi]
+    cpt_sets = [c for k in range(0, 3) for c in __import__("itertools").combinations(range(1, n), k)]
+    hs = []
+
+    def harness(cc):
+        info = dict(inner="numpy", stat=stat, n=n, cpts=list(cc))
+
+        def run(eng, acc):
+            from skchange.anomaly_detectors import StatThresholdAnomaliser
+            X = pd.DataFrame({"x": np.array([SymReal(x) for x in xs], dtype=object)})
+            try:
+                an = StatThresholdAnomaliser(StubChangeDetector(cpts=tuple(cc)), stat=getattr(np, stat), stat_lower=SymReal(lo), stat_upper=SymReal(hi))
+                out = an.fit(X).predict(X)
+            except Exception as ex:
+                acc.concrete("runs_to_completion", False, dict(info, exception=f"{type(ex).__name__}: {ex}"[:200]), eng=eng)
+                return
+            got = [(int(i.left), int(i.right)) for i in out["ilocs"]]
+            b = [0] + list(cc) + [n]
+            for s, e in zip(b[:-1], b[1:]):
+                flag = _ref_stat_flag(stat, xs[s:e], lo, hi)
+                acc.oblige(eng, "numpy_stat.segment_flagged_iff_statistic_out_of_range", flag if (s, e) in got else z3.Not(flag),
+                           dict(info, segment=(s, e), flagged=(s, e) in got))
+            acc.concrete("numpy_stat.only_segments_reported", all(g in list(zip(b[:-1], b[1:])) for g in got), dict(info, got=got), eng=eng)
+            acc.sample(dict(info, anomalies=got))
+
+        return Harness(run, base, sliced=True, timeout_ms=10000, name=f"numpy {info}")
+
+    for cc in cpt_sets:
+        hs.append(harness(cc))
+    return hs
+
+
 def jobs(tier, mode="c17"):
     M = "harness.c17"
     out = []
@@ -240,6 +322,8 @@ def jobs(tier, mode="c17"):
         out.append(Job(M, "make_real", dict(kind=kind, n=n, mode=mode), split=True))
     if mode == "c17":
         out.append(Job(M, "make_bounds", {}))
+        for stat in NUMPY_STATS:
+            out.append(Job(M, "make_numpy", dict(n=4 if tier == "quick" else 5, stat=stat)))
     return out
 
 
@@ -275,6 +359,42 @@ def replay(cx):
         return dict(reproduced=outcome != want, key=f"bounds|{outcome.split(':')[0]}",
                     what=f"StatThresholdAnomaliser(stat_lower={lo}, stat_upper={hi}) -> {outcome}, expected {want}")
     n = info["n"]
+    if inner == "numpy":
+        import statistics as st_
+        ref = dict(mean=st_.fmean, var=st_.pvariance, std=st_.pstdev, median=st_.median, max=max, min=min, sum=sum)[info["stat"]]
+        cc = info["cpts"]
+        b = [0] + list(cc) + [n]
+        segs = list(zip(b[:-1], b[1:]))
+        # the model's point first; if the symbolic run could not be completed (no informative model) or the point does not
+        # separate, deterministic data with bounds placed 10 % beside each segment's statistic are tried as well --
+        # a reproduced violation needs one concrete failing input, any one
+        tries = [([env.get(f"x_{i}", 0.0) for i in range(n)], lo, hi)]
+        rng = np.random.default_rng(17)
+        for _ in range(4):
+            xs_ = [float(v) for v in rng.integers(-6, 7, size=n)]
+            for (s_, e_) in segs:
+                v = float(ref(xs_[s_:e_]))
+                d = 0.1 * abs(v) + 0.05
+                tries += [(xs_, -1e9, v + d), (xs_, v - d, 1e9)]
+        tol = 1e-9
+        for xs, lo_, hi_ in tries:
+            with proxy.native():
+                try:
+                    out = StatThresholdAnomaliser(StubChangeDetector(cpts=tuple(cc)), stat=getattr(np, info["stat"]), stat_lower=lo_, stat_upper=hi_).fit(
+                        pd.DataFrame({"x": xs})).predict(pd.DataFrame({"x": xs}))
+                except Exception as ex:
+                    return dict(reproduced=True, key=f"numpy_stat|{info['stat']}|{type(ex).__name__}",
+                                what=f"StatThresholdAnomaliser(stat=np.{info['stat']}) on x={xs}, changepoints {cc} raised {type(ex).__name__}: {ex}"[:500])
+            got = [(int(i.left), int(i.right)) for i in out["ilocs"]]
+            vals = {se: float(ref(xs[se[0]:se[1]])) for se in segs}
+            want_sure = [se for se, v in vals.items() if v < lo_ - tol or v > hi_ + tol]
+            not_sure = [se for se, v in vals.items() if abs(v - lo_) <= tol or abs(v - hi_) <= tol]
+            badl = [se for se in want_sure if se not in got] + [se for se in got if se not in want_sure and se not in not_sure]
+            if badl:
+                return dict(reproduced=True, key=f"numpy_stat|{info['stat']}",
+                            what=f"StatThresholdAnomaliser(stat=np.{info['stat']}, [{lo_}, {hi_}]) on x={xs}, changepoints {cc}: reported {got}, but the segment "
+                                 f"statistics are { {str(k): round(v, 6) for k, v in vals.items()} }")
+        return dict(reproduced=False, key=f"numpy_stat|{info['stat']}", what=f"np.{info['stat']}: flags agree with the definition at the model point and at {len(tries) - 1} further points")
     X = rows_X(n)
     with proxy.native():
         if inner == "stub":
